@@ -75,10 +75,10 @@ def busyU : UPc → Bool
 @[simp] theorem busyH_snapSend (s m p e ps rest) : busyH (.snapSend s m p e ps rest) = true := rfl
 @[simp] theorem busyH_relDisp (r ok) : busyH (.relDisp r ok) = true := rfl
 @[simp] theorem busyH_rep (r ok) : busyH (.rep r ok) = true := rfl
-@[simp] theorem busyH_afterTable_disc (cfg) : busyH (afterTable cfg .disconnect) = false := rfl
+@[simp] theorem busyH_afterTable_disc (cfg c) : busyH (afterTable cfg c .disconnect) = false := rfl
 @[simp] theorem busyH_firstPc (r) : busyH (firstPc r) = true := by cases r <;> rfl
 @[simp] theorem busyH_afterSnap (s l) : busyH (afterSnap s l) = true := by cases l <;> rfl
-theorem busyH_afterTable (cfg r) (h : r ≠ .disconnect) : busyH (afterTable cfg r) = true := by
+theorem busyH_afterTable (cfg c r) (h : r ≠ .disconnect) : busyH (afterTable cfg c r) = true := by
   cases r with
   | activate s => simp [afterTable]
   | disconnect => exact absurd rfl h
@@ -173,7 +173,7 @@ def todo (cfg : Cfg) : HPc → List (Mod × Par)
   cases l with
   | nil => rfl
   | cons m rest => simp [afterSnap, items_cons]
-@[simp] theorem todo_afterTable (cfg : Cfg) (r) : todo cfg (afterTable cfg r) = todo cfg (.relSub r) := by
+@[simp] theorem todo_afterTable (cfg : Cfg) (c) (r) : todo cfg (afterTable cfg c r) = todo cfg (.relSub r) := by
   cases r with
   | activate s => simp only [afterTable, todo_afterSnap]; rfl
   | _ => rfl
@@ -196,7 +196,20 @@ def Good (cfg : Cfg) (σ : State) (c : Conn) (m : Mod) (p : Par) : Prop :=
 
 theorem covers_scopeItems (cfg : Cfg) (s : Scope) (m : Mod) (p : Par) (hm : m ∈ cfg.mods) (hp : p ∈ cfg.pars m)
     (h : covers s m p = true) : (m, p) ∈ scopeItems cfg s := by
-  cases s <;> simp_all [scopeItems, scopeMods, scopePars, covers]
+  cases s with
+  | all => simp_all [scopeItems, scopeMods, scopePars, covers]
+  | mod m' =>
+    have : m' = m := by
+      have : m'.val = m.val := by simpa [covers] using h
+      exact Subtype.ext this
+    subst this
+    simp_all [scopeItems, scopeMods, scopePars]
+  | par m' p' =>
+    have : m'.val = m.val ∧ p' = p := by simpa [covers] using h
+    obtain ⟨h1, h2⟩ := this
+    have := Subtype.ext h1
+    subst this h2
+    simp [scopeItems, scopeMods, scopePars]
 
 theorem listens_write_self (σ : State) (c : Conn) (r : Req) (m : Mod) (p : Par)
     (h : listens (tableWrite σ c r) c m p = true) :
@@ -358,8 +371,8 @@ theorem qInv_step (cfg : Cfg) (cache) (σ σ' : State) (a : Act) (hS : SnapInv c
       exact good_stepH_other cfg σ σ' c0 c m p hne hs (hQ c hc m hm p hp hl)
   · rename_i k _
     intro c hc m hm p hp hl
-    obtain ⟨_, _, _, _, f5, f6, f7, _⟩ := stepU_frame cfg σ σ' k a.arg hs
-    have hl' : listens σ c m p = true := by simpa [listens, f5, f6, f7] using hl
+    obtain ⟨_, _, _, _, f5, f6, _⟩ := stepU_frame cfg σ σ' k a.arg hs
+    have hl' : listens σ c m p = true := by simpa [listens, f5, f6] using hl
     exact good_stepU cfg cache σ σ' k a.arg c m p hc hS hs hl' (hQ c hc m hm p hp hl')
 
 theorem qInv_reach (cfg : Cfg) (hs us cache) (σ : State) (h : Reach cfg (init hs us cache) σ) : QInv cfg σ := by
